@@ -225,8 +225,20 @@ def stager_attrs(prog, cls):
     return out
 
 
+_tar_cache = {}
+
+
 def tar_names(prog, f):
     """local names bound to tarfile.open(...)"""
+    key = id(f.node)
+    if key not in _tar_cache:
+        if len(_tar_cache) > 500:
+            _tar_cache.clear()
+        _tar_cache[key] = (f.node, _tar_names(prog, f))
+    return _tar_cache[key][1]
+
+
+def _tar_names(prog, f):
     out = set()
     for n in walk(f.node):
         if isinstance(n, ast.Assign) and isinstance(n.value, ast.Call):
@@ -1160,10 +1172,22 @@ def r11_5(prog, rep, rid='R11.5'):
 # ------------------------------------------------------------------------------
 # R11.6  context tables
 #
+_assign_index = {}
+
+
 def _origin_keys(f, expr, depth=4):
     """constant keys X['k'] / X.get('k') from which the value of `expr` is
     computed, following plain name assignments of the function only"""
     out, seen = set(), set()
+    if _assign_index.get('node') is not f.node:
+        idx = {}
+        for a in walk(f.node):
+            if isinstance(a, ast.Assign):
+                for t in a.targets:
+                    if isinstance(t, ast.Name):
+                        idx.setdefault(t.id, []).append(a)
+        _assign_index['node'], _assign_index['idx'] = f.node, idx
+    assigns = _assign_index['idx']
 
     def rec(e, d):
         for n in walk(e):
@@ -1178,11 +1202,8 @@ def _origin_keys(f, expr, depth=4):
             elif isinstance(n, ast.Name) and isinstance(n.ctx, ast.Load) \
                     and n.id not in seen and d > 0:
                 seen.add(n.id)
-                for a in walk(f.node):
-                    if isinstance(a, ast.Assign) and any(
-                            isinstance(t, ast.Name) and t.id == n.id
-                            for t in a.targets):
-                        rec(a.value, d - 1)
+                for a in assigns.get(n.id, ()):
+                    rec(a.value, d - 1)
     rec(expr, depth)
     return out
 
